@@ -2,6 +2,7 @@ SPECIFICATION Spec
 CONSTANTS K = 1 SendPuncture = TRUE PunctureFirst = FALSE FollowAll = FALSE MaxId = 24 QuietCalls = FALSE
           APlaces = {"pub", "nat"} CandPlaces = {"pub", "nat", "withA"}
           MaxContactsA = 1 MaxContactsB = 1
+          MinContacts = 1 MaxRebinds = 0 Clock0 = 0 Refresh = TRUE Ident16 = TRUE
 INVARIANT TypeOK
 INVARIANT Reach
 INVARIANT LanMeet
